@@ -11,7 +11,7 @@ func baseWeights() map[string]int {
 		"new": 14, "newBatch": 5, "copy": 3, "add": 12, "remove": 9, "exchange": 8, "set": 5, "write": 5,
 		"setRel": 6, "removeEntity": 7,
 		"addBatch": 3, "removeBatch": 3, "exchangeBatch": 2, "setRelBatch": 2, "removeEntities": 3,
-		"filterNew": 4, "filterReg": 2, "query": 6, "shrink": 2, "reset": 0, "stats": 1, "read": 2, "scenario": 2,
+		"filterNew": 4, "filterReg": 2, "query": 6, "shrink": 2, "reset": 0, "stats": 1, "read": 2, "scenario": 2, "register": 1,
 	}
 }
 
@@ -106,7 +106,7 @@ func init() {
 		ID: "C07",
 		Profile: &Profile{Name: "lock", W: map[string]int{"new": 10, "newBatch": 4, "copy": 2, "add": 8, "remove": 5, "exchange": 4, "set": 5, "write": 4, "setRel": 3, "removeEntity": 5,
 			"removeEntities": 4, "addBatch": 2, "removeBatch": 3, "filterNew": 5, "filterReg": 2, "query": 5, "stats": 2, "emit": 2, "obsNew": 1, "obsReg": 1, "read": 2,
-			"qOpen": 14, "qNext": 16, "qClose": 12, "reset": 1},
+			"qOpen": 14, "qNext": 16, "qClose": 12, "reset": 1, "register": 4},
 			MaxEnts: 25, MinOps: 20, MaxOps: 160, OpenQ: true, MaxOpenQ: 64, Nested: true, Burst: true},
 		Policies: []Policy{{}},
 		Opt:      Options{DeepEvery: 10, Events: true},
